@@ -113,6 +113,7 @@ def histories(draw, tier, min_size):
 
 ALPHABET = (
     [["a", s, al] for s in (1, 2, 3, 8) for al in (True, False)]
+    + [["a", 0, True]]
     + [["f", k] for k in (0, 1, 2)]
     + [["g", n] for n in (1, 8)]
 )
